@@ -48,10 +48,11 @@ Variable sum_fill : list Z -> Z.
 (* both addresses are IPv4 (the `(&IpAddress::Ipv4(_), &IpAddress::Ipv4(_))` arm of parse) *)
 Variable is_v4 : bool.
 
-(* Packet::verify_checksum *)
+(* Packet::verify_checksum: a zero checksum field means "no checksum" over IPv4 only
+   (RFC 768); over IPv6 it is rejected (RFC 8200 8.1) *)
 Definition udp_verify_checksum (bs : list Z) : outcome bool :=
   do c <- udp_checksum bs;
-  if c =? 0 then Ok true
+  if c =? 0 then Ok is_v4
   else do l <- udp_len bs; do d <- wb_upto bs l; Ok (sum_ok d).
 
 (* Packet::fill_checksum *)
@@ -95,7 +96,10 @@ End Checksum.
    - ports are u16 (Rust type);
    - dst_port <> 0: `Repr::parse` rejects destination port 0 ("cannot be omitted"), so a Repr with
      dst_port = 0 is outside what the protocol (as documented in parse) permits;
-   - the datagram fits the 16-bit length field: 8 + |payload| <= 65535 (emit truncates with `as u16`). *)
+   - the datagram fits the 16-bit length field: 8 + |payload| <= 65535 (emit truncates with `as u16`).
+   The round trip additionally needs a checksum configuration under which the receiver accepts
+   what the sender produced: a datagram emitted without checksum (tx = false) is only accepted
+   by a verifying receiver (rx = true) over IPv4 — stated as a hypothesis of the theorem. *)
 Definition udp_wf (r : udp_repr) (payload : list Z) : bool :=
   is_u16 (udp_sport r) && is_u16 (udp_dport r) && negb (udp_dport r =? 0) &&
   bytes_ok payload && (udp_HEADER_LEN + blen payload <=? 65535).
